@@ -1,5 +1,6 @@
 """functools.partial branches (C19.R1, C19.R4)."""
 import ast
+from .callgraph import resolve_once
 from .index import Inconclusive, norm
 from .interp import Interp, Policy, show, show_lit, walk_effects, K, NONE, subterms, mentions
 from .rules_merge import site, lits_text
@@ -140,17 +141,27 @@ def rule_partial_discovery(check, rule):
         plain_names = set()
         for a_ in ast.walk(fi.node):
             if isinstance(a_, ast.Assign) and isinstance(a_.value, ast.Call) and norm(a_.value.func).endswith('_signatures.signature') \
-                    and a_.value.args and norm(a_.value.args[0]) in (pobj[1], '%s.func' % pobj[1]):
+                    and a_.value.args and norm(resolve_once(fi.node, a_.value.args[0])) in (pobj[1], '%s.func' % pobj[1]):
                 plain_names.update(t_.id for t_ in a_.targets if isinstance(t_, ast.Name))
+        vtries = []
+        for t_ in ast.walk(fi.node):
+            if isinstance(t_, ast.Try) and t_.body and (not af_lines or (t_.body[-1].end_lineno or t_.body[-1].lineno) < min(af_lines)) and any(
+                    isinstance(c_, ast.Call) and norm(c_.func).endswith('_signatures.signature') and c_.args
+                    and norm(resolve_once(fi.node, c_.args[0])) in (pobj[1], '%s.func' % pobj[1]) for b_ in t_.body for c_ in ast.walk(b_)):
+                vtries.append((t_.body[0].lineno, t_.body[-1].end_lineno or t_.body[-1].lineno))
         for a, pol in p.lits:
-            if a[0] == 'raises' and pol and 'ValueError' in str(a[2]):
+            if a[0] == 'raises' and pol and any(lo <= a[1][0] <= hi for lo, hi in vtries):
+                # raised somewhere in the try block that validates the binding against the real signature, before discovery
+                plain_failed = True
+            if a[0] == 'raises' and pol:
                 for c_ in ast.walk(fi.node):
                     if not (isinstance(c_, ast.Call) and c_.lineno == a[1][0] and (not af_lines or c_.lineno < min(af_lines))):
                         continue
                     if (norm(c_.func).endswith('_signatures.signature') or norm(c_.func).endswith('cleanup_functools_wrapper')) and c_.args \
-                            and norm(c_.args[0]) in (pobj[1], '%s.func' % pobj[1]):
+                            and norm(resolve_once(fi.node, c_.args[0])) in (pobj[1], '%s.func' % pobj[1]):
                         plain_failed = True
-                    if norm(c_.func).split('.')[-1] in ('_mask', 'mask') and c_.args and isinstance(c_.args[0], ast.Name) and c_.args[0].id in plain_names:
+                    if norm(c_.func).split('.')[-1] in ('_mask', 'mask') and c_.args and isinstance(resolve_once(fi.node, c_.args[0]), ast.Name) \
+                            and (resolve_once(fi.node, c_.args[0]).id in plain_names or (isinstance(c_.args[0], ast.Name) and c_.args[0].id in plain_names)):
                         plain_failed = True
         if not has and p.status == 'raise' and plain_failed:
             check.holds(rule, st, 'leaves before discovery only when plain retrieval of the partial object itself fails', key='autoforwards_partial|plain-failed')
